@@ -144,6 +144,7 @@ package escape
 // Edges lists edges of g: every element is an edge of g (and starts at src when src
 // is given); nothing is modified.
 //@ func EscapeGraph.Edges
+//@   loops 3
 //@   property C15
 //@   option append_both
 //@   requires g != nil
@@ -264,6 +265,7 @@ package escape
 // (loop 4 is the worklist loop, loop 12 the one bringing allocation nodes over -- it
 // ends right before the status test -- and loop 13 the one bringing load nodes over.)
 //@ func EscapeGraph.Call
+//@   loops 14
 //@   property C15
 //@   option havoc:*
 //@   requires g != nil && pre != nil && callee != nil
@@ -280,6 +282,7 @@ package escape
 // through LoadField; a go statement and a panic hand their operands to CallUnknown
 // (which leaks them); interface changes copy the pointees.
 //@ func functionAnalysisState.transferFunction
+//@   loops 11
 //@   property C14
 //@   option havoc:*
 //@   requires ea != nil && g != nil && instruction != nil && ref(instruction) != 0
